@@ -912,7 +912,7 @@ def _run(c):
     c.tlc("ExtHandler", "ExtHandler.cfg", workers=6, required_actions=ACTIONS, timeout=600, heap="8g")
     c.tlc("ExtHandler", "ExtHandler_update.cfg", workers=6, timeout=300,
           required_actions=["UpdTag", "UnCheck", "UnSetup", "EnUntag", "LInstall", "LDecide", "DisKill"])
-    c.tlc("ExtHandler", "ExtHandler_os.cfg", workers=2, timeout=120, required_actions=["OsCheck"])
+    c.tlc("ExtHandler", "ExtHandler_os.cfg", workers=2, timeout=600, required_actions=["OsCheck"])
     model_findings = {}
     for cfg, inv, kind in (("ExtHandler_stray.cfg", "StatusOnlyInFolder", "stray-status"),
                            ("ExtHandler_latch.cfg", "RollbackCoversEveryInstall", "decision-latch")):
